@@ -111,13 +111,26 @@ class BasicBlockNode:
     def _get_instruction(self, index: int) -> Instr:
         """Get the instruction at the given index.
 
+        A non-negative index is a position in the basic block, which besides instructions
+        may hold pseudo-instructions (e.g., ``TryBegin`` or ``TryEnd``); it is the same
+        index that is used for inserting instrumentation into the basic block.  A negative
+        index counts instructions from the end of the basic block.
+
         Args:
             index: The index of the instruction
 
         Returns:
             The instruction at the given index
+
+        Raises:
+            IndexError: If there is no instruction at the given index
         """
-        return tuple(instr for instr in self.instructions)[index]
+        if index < 0:
+            return tuple(instr for instr in self.instructions)[index]
+        instr = self._basic_block[index]
+        if not isinstance(instr, Instr):
+            raise IndexError("No instruction at the given index.")
+        return instr
 
     def try_get_instruction(self, index: int) -> Instr | None:
         """Try to get the instruction at the given index.
@@ -156,12 +169,10 @@ class BasicBlockNode:
         """
         instr_index = 0
         while instr_index < len(self._basic_block):
-            instr = self.try_get_instruction(instr_index)
+            instr = self._basic_block[instr_index]
 
-            if instr is None:
-                break
-
-            if isinstance(instr, ArtificialInstr):
+            if not isinstance(instr, Instr) or isinstance(instr, ArtificialInstr):
+                # Pseudo-instructions (TryBegin, TryEnd) and instrumentation
                 instr_index += 1
                 continue
 
@@ -169,7 +180,8 @@ class BasicBlockNode:
 
             # Update the instr_index to retarget at the original instruction
             while (
-                isinstance(new_instr := self._get_instruction(instr_index), ArtificialInstr)
+                not isinstance(new_instr := self._basic_block[instr_index], Instr)
+                or isinstance(new_instr, ArtificialInstr)
                 or new_instr != instr
             ):
                 instr_index += 1
@@ -187,8 +199,8 @@ class BasicBlockNode:
         """
         return tuple(
             (instr_index, instr)
-            for instr_index, instr in enumerate(self.instructions)
-            if not isinstance(instr, ArtificialInstr)
+            for instr_index, instr in enumerate(self._basic_block)
+            if isinstance(instr, Instr) and not isinstance(instr, ArtificialInstr)
         )[original_index]
 
     def __eq__(self, other: object) -> bool:
